@@ -33,7 +33,7 @@ BUDGET = {
 def _case(draw, tier):
     big = tier == "thorough"
     desc = draw(gen.wellformed(wf_wds=(None, None, "wdir"), max_targets=9 if big else 6, max_files=12 if big else 9, ticks=3, min_targets=2,
-                               shapes=(0, 2, 4, 5, 7), spellings=(0, 1, 2, 3, 4), protect=True))
+                               shapes=(0, 2, 4, 5, 7), spellings=(0, 1, 2, 3, 4, 5, 7), protect=True))
     names = [t["name"] for t in desc["targets"]]
     # make outputs mostly exist
     for p in list(desc["files"]):
@@ -43,7 +43,7 @@ def _case(draw, tier):
         for t in desc["targets"]:
             outs = sorted(model.T(t).outset)
             if len(outs) >= 2:
-                t["protect"] = [gen.spell(outs[0], draw(st.sampled_from([0, 1, 2, 3, 4])))]
+                t["protect"] = [gen.spell(outs[0], draw(st.sampled_from([0, 1, 2, 3, 4, 5, 7])))]
                 for o in outs[:2]:
                     desc["files"][o] = desc["files"][o] or 2
                 break
